@@ -113,8 +113,8 @@ M = [
       old="__FROM_PATCH__", new="", expect="c15.sibling|int::gcd::<impl traits::Gcd for int::Int<_>>::gcd_vartime", patch="/verif/seeded/C15c/patch.diff"),
  # --- C10 / C13 (gate dependence)
  dict(name="inv_mod2k_vartime_gate_ignores_k", prop="C10", file="src/uint/inv_mod.rs",
-      old="        let is_some = ConstChoice::from_u32_nonzero(k).not().or(self.is_odd());\n\n        while i < k {\n            // X_i = b_i mod 2\n            let x_i = b.limbs[0].0 & 1;\n            let x_i_choice = ConstChoice::from_word_lsb(x_i);\n            // b_{i+1} = (b_i - a * X_i) / 2\n            b = Self::select(&b, &b.wrapping_sub(self), x_i_choice).shr1();",
-      new="        let is_some = ConstChoice::from_u32_nonzero(k).not().or(ConstChoice::TRUE);\n\n        while i < k {\n            // X_i = b_i mod 2\n            let x_i = b.limbs[0].0 & 1;\n            let x_i_choice = ConstChoice::from_word_lsb(x_i);\n            // b_{i+1} = (b_i - a * X_i) / 2\n            b = Self::select(&b, &b.wrapping_sub(self), x_i_choice).shr1();",
+      old="        let is_some = ConstChoice::from_u32_nonzero(k).not().or(self.is_odd());\n\n        // Bits at positions `>= Self::BITS` do not exist in the result: for `k > Self::BITS`\n        // the inverse mod `2^k` truncated to this width is the inverse mod `2^Self::BITS`.\n        while i < k && i < Self::BITS {\n            // X_i = b_i mod 2\n            let x_i = b.limbs[0].0 & 1;\n            let x_i_choice = ConstChoice::from_word_lsb(x_i);\n            // b_{i+1} = (b_i - a * X_i) / 2\n            b = Self::select(&b, &b.wrapping_sub(self), x_i_choice).shr1();",
+      new="        let is_some = ConstChoice::from_u32_nonzero(k).not().or(ConstChoice::TRUE);\n\n        // Bits at positions `>= Self::BITS` do not exist in the result: for `k > Self::BITS`\n        // the inverse mod `2^k` truncated to this width is the inverse mod `2^Self::BITS`.\n        while i < k && i < Self::BITS {\n            // X_i = b_i mod 2\n            let x_i = b.limbs[0].0 & 1;\n            let x_i_choice = ConstChoice::from_word_lsb(x_i);\n            // b_{i+1} = (b_i - a * X_i) / 2\n            b = Self::select(&b, &b.wrapping_sub(self), x_i_choice).shr1();",
       expect="c10.gate|uint::inv_mod::<impl uint::Uint<_>>::inv_mod2k_vartime"),
  dict(name="safegcd_inv_gate_constant", prop="C10", file="src/modular/safegcd.rs",
       old="        let is_some = f.eq(&UnsatInt::ONE).or(antiunit);\n        ConstCtOption::new(ret.to_uint(), is_some)\n    }\n\n    /// Returns either the adjusted modular multiplicative inverse for the argument or `None`\n    /// depending on invertibility of the argument, i.e. its coprimality with the modulus.\n    ///\n    /// This version is variable-time",
@@ -256,6 +256,14 @@ M = [
       old="        let (_, borrow) = self.sbb(other, Limb::ZERO);\n        ConstChoice::from_word_mask(borrow.0).into()",
       new="        let mut borrow = Limb::ZERO;\n        for (i, a) in self.limbs.iter().enumerate() {\n            let b = other.limbs.get(i).unwrap_or(&Limb::ZERO);\n            (_, borrow) = a.sbb(*b, borrow);\n        }\n        ConstChoice::from_word_mask(borrow.0).into()",
       expect="c06.onesided|uint::boxed::cmp::<impl subtle::ConstantTimeLess for uint::boxed::BoxedUint>::ct_lt"),
+ # --- reverse of repo fix 71d0d7f
+ dict(name="inv_mod2k_vartime_expect", prop="C11", file="src/uint/inv_mod.rs",
+      old="                .overflowing_shl_vartime(i)\n                .unwrap_or(Self::ZERO);", new="                .overflowing_shl_vartime(i)\n                .expect(\"shift within range\");",
+      expect="c11.panic|uint::inv_mod::<impl uint::Uint<_>>::inv_mod2k_vartime"),
+ # --- reverse of repo fix a7fbb61
+ dict(name="limb_shl_overflow_check_only", prop="C05", file="src/limb/shl.rs",
+      old="        assert!(\n            shift < Self::BITS,\n            \"`shift` within the bit size of the integer\"\n        );\n        Limb(self.0 << shift)", new="        Limb(self.0 << shift)",
+      expect="c05.docpanic|limb::shl::<impl limb::Limb>::shl"),
 ]
 
 def main():
